@@ -1177,6 +1177,8 @@ pub fn hand_entries() -> Vec<(Entry, bool)> {
         (Entry::generic::<BTreeSet<Level>>("BTreeSet<Level>", "", "hand"), true),
         (Entry::generic::<HashSet<Level>>("HashSet<Level>", "", "hand"), true),
         (Entry::generic::<NestedOpt>("NestedOpt", NESTED_OPT_SRC, "hand"), true),
+        (Entry::generic::<Vec<NestedOpt>>("Vec<NestedOpt>", "", "hand"), true),
+        (Entry::generic::<Option<NestedOpt>>("Option<NestedOpt>", "", "hand"), true),
         (Entry::generic::<Accent>("Accent", ACCENT_SRC, "hand"), true),
         (Entry::generic::<Paged>("Paged", PAGED_SRC, "hand"), true),
         (Entry::generic::<Vec<Paged>>("Vec<Paged>", "", "hand"), true),
